@@ -144,13 +144,16 @@ def gen_bs(rng: random.Random, tier: str) -> dict:
     if kind == "ints" and not nan_rows and rng.random() < 0.6:
         # an integer column (possibly unsigned) with whole-number knots and bounds given as Python ints
         as_int = rng.choice(["uint8", "int64", "int8"])
+        shift = float(rng.choice([0, 3, 10, 100] if as_int != "int8" else [0, 3, -20, 100]))  # (room below the lower bound, also for unsigned columns)
+        x = [v + shift for v in x]
+        lo, hi = lo + shift, hi + shift
         kw.pop("df", None)
         inner = sorted({int(q) for q in rng.sample(range(int(lo) + 1, max(int(lo) + 2, int(hi))), min(2, max(1, int(hi) - int(lo) - 1)))}) if hi - lo >= 2 else []
         kw["knots"] = [q for q in inner if lo < q < hi]
         if not kw["knots"]:
             kw.pop("knots")
         kw["lower_bound"], kw["upper_bound"] = int(lo), int(hi)
-        xnew = [float(v) for v in (int(lo), int(hi), int(lo) + 1, max(int(lo), int(hi) - 1))] + ([float(int(hi) + 2), float(max(0, int(lo) - 1))] if kw["extrapolation"] != "raise" else [])
+        xnew = [float(v) for v in (int(lo), int(hi), int(lo) + 1, max(int(lo), int(hi) - 1))] + ([float(int(hi) + 2), float(max(0, int(lo) - 1)), float(max(0, int(lo) - 3))] if kw["extrapolation"] != "raise" else [])
     return {"as_int": as_int, "fn": "bs", "x": x, "kw": kw, "kind": kind, "nan_rows": nan_rows, "xnew": xnew, "path": rng.choice(["direct", "direct", "mm"]), "ext_as_enum": rng.random() < 0.25,
             "bounds_reeval": rng.random() < 0.4}
 
